@@ -272,12 +272,26 @@ def c08_6(ctx):
         for p in ('join', 'columns'):
             if const(dd.get(p), 'X') != 'oj':
                 ctx.fail(fn, fn.node, "%s: default %s is %s, expected 'oj' (union index / all columns)" % (pub, p, U(dd[p]) if p in dd else 'missing'))
-        m = [n for n in body_nodes(fn.node) if isinstance(n, ast.Assign) and U(n.targets[0]) == 'masks']
-        if not m or N(m[0].value) != '[_mask(df, exc) for df in dfs]':
-            ctx.fail(fn, m[0] if m else fn.node, '%s does not mask every aligned operand with _mask(df, exc)' % pub)
-        cnt = [n for n in body_nodes(fn.node) if isinstance(n, ast.Assign) and U(n.targets[0]) == 'n']
-        if not cnt or N(cnt[0].value) != 'sum([~mask for mask in masks])':
-            ctx.fail(fn, cnt[0] if cnt else fn.node, '%s does not count the non-masked operands as sum(~mask)' % pub)
+        # spelling-independent: the count, with every temporary substituted, is sum(~mask) over _mask(df, exc) of every ALIGNED operand
+        sp = [p for p in sym_paths(fn) if p.term == 'return']
+        ctx.need(len(sp) >= 1, '%s has no returning path' % pub)
+        env = sp[0].env
+        cnt = env.get('n')
+        if cnt is None and pub == 'df_count':
+            cnt = sp[0].value
+        ok_masks = ok_cnt = False
+        if isinstance(cnt, ast.Call) and call_name(cnt) == 'sum' and len(cnt.args) == 1 and isinstance(cnt.args[0], ast.ListComp):
+            lc = cnt.args[0]
+            var = U(lc.generators[0].target)
+            ok_cnt = N(lc.elt) == '~%s' % var and len(lc.generators) == 1 and not lc.generators[0].ifs
+            inner = lc.generators[0].iter
+            if isinstance(inner, ast.ListComp) and len(inner.generators) == 1 and not inner.generators[0].ifs:
+                v2 = U(inner.generators[0].target)
+                ok_masks = N(inner.elt) == '_mask(%s, exc)' % v2 and isinstance(inner.generators[0].iter, ast.Call) and call_name(inner.generators[0].iter) == 'df_sync'
+        if not ok_masks:
+            ctx.fail(fn, fn.node if cnt is None else sp[0].node, '%s does not mask every aligned operand with _mask(df, exc)' % pub, stmt=cnt)
+        elif not ok_cnt:
+            ctx.fail(fn, sp[0].node, '%s does not count the non-masked operands as sum(~mask)' % pub, stmt=cnt)
     for pub in ('df_sum', 'df_mean'):
         fn = ctx.repo.fn('_pandas:%s' % pub)
         ctx.count(1)
@@ -300,8 +314,8 @@ def c08_6(ctx):
         ctx.fail(fn, fn.node, 'df_mean no longer divides by the count with zero counts mapped to NaN')
     fn = ctx.repo.fn('_pandas:df_count')
     ctx.count(1)
-    rr = returns_of(fn.node)
-    if not rr or U(rr[-1].value) != 'n':
+    rr = [p for p in sym_paths(fn) if p.term == 'return']
+    if not rr or any(p.text() != N(p.env['n']) if 'n' in p.env else call_name(p.value) != 'sum' for p in rr):
         ctx.fail(fn, fn.node, 'df_count does not return the count')
     fn = ctx.repo.fn('_pandas:mask2v')
     ctx.count(1, fn.where())
